@@ -728,17 +728,23 @@ class HostConnectionPool(object):
         log.debug("Going to open new connection to host %s", self.host)
         try:
             conn = self._session.cluster.connection_factory(self.host.endpoint, on_orphaned_stream_released=self.on_orphaned_stream_released)
-            if self._keyspace:
-                conn.set_keyspace_blocking(self._session.keyspace)
-            self._next_trash_allowed_at = time.time() + _MIN_TRASH_INTERVAL
-            with self._lock:
-                if self.is_shutdown:
-                    # shutdown() ran while we were connecting and will not see this connection
-                    conn.close()
-                    self.open_count -= 1
-                    return True
-                new_connections = self._connections[:] + [conn]
-                self._connections = new_connections
+            while True:
+                keyspace = self._session.keyspace
+                if keyspace:
+                    conn.set_keyspace_blocking(keyspace)
+                self._next_trash_allowed_at = time.time() + _MIN_TRASH_INTERVAL
+                with self._lock:
+                    if self.is_shutdown:
+                        # shutdown() ran while we were connecting and will not see this connection
+                        conn.close()
+                        self.open_count -= 1
+                        return True
+                    if keyspace == self._session.keyspace:
+                        new_connections = self._connections[:] + [conn]
+                        self._connections = new_connections
+                        break
+                    # the session switched keyspace while this connection was selecting the
+                    # previous one; the switch did not see the connection, so apply it here
             log.debug("Added new connection (%s) to pool for host %s, signaling availability",
                       id(conn), self.host)
             self._signal_available_conn()
@@ -926,7 +932,13 @@ class HostConnectionPool(object):
         connections have been set, `callback` will be called with two
         arguments: this pool, and a list of any errors that occurred.
         """
-        remaining_callbacks = set(self._connections)
+        with self._lock:
+            # _add_conn_if_under_max() publishes a connection under this lock, and only
+            # with the session keyspace of that moment: a connection is either in this
+            # snapshot or selects the new keyspace itself
+            self._keyspace = keyspace
+            connections = self._connections
+        remaining_callbacks = set(connections)
         errors = []
 
         if not remaining_callbacks:
@@ -942,8 +954,7 @@ class HostConnectionPool(object):
             if not remaining_callbacks:
                 callback(self, errors)
 
-        self._keyspace = keyspace
-        for conn in self._connections:
+        for conn in connections:
             conn.set_keyspace_async(keyspace, connection_finished_setting_keyspace)
 
     def get_connections(self):
